@@ -1,4 +1,5 @@
 import GqlVerif.Props.C04
+import GqlVerif.Proofs.C05Body
 open GqlVerif.C04
 #print axioms GqlVerif.C01.ser_fields_iff
 #print axioms variables_fields_are_declared
@@ -15,3 +16,13 @@ open GqlVerif.C04
 #print axioms GqlVerif.C01.ser_keys_all
 #print axioms GqlVerif.C01.oneof_keys
 #print axioms GqlVerif.C01.ser_conforms
+-- key set of the serialized Variables struct, from the generator (Proofs/C05Body.lean)
+#print axioms GqlVerif.C04Keys.variablesItems_inv
+#print axioms GqlVerif.C04Keys.variables_keys
+#print axioms GqlVerif.C04Keys.variables_keys_exact
+#print axioms GqlVerif.C04Keys.variables_keys_all_iff
+#print axioms GqlVerif.C04Keys.variables_keys_any_value
+#print axioms GqlVerif.C04Keys.variables_unit
+#print axioms GqlVerif.C04Keys.variables_keys_of_assignment
+#print axioms GqlVerif.C04Keys.distinct_names_needed
+#print axioms GqlVerif.C04Keys.distinct_members_needed
